@@ -99,6 +99,9 @@ SHAPES = [
            ("Push", st("PushArgs", [opt("force", "optional", "bool", "bool", long="force"),
                                     opt("remote", "required", "str", STR, short="r")])),
        ])),
+    # 13 byte-string positionals: a &UnixStr positional takes any bytes, the optional &str one needs UTF-8
+    st("PosUstr", [pos("file", "required", "unixstr", USTR),
+                   pos("label", "optional", "str", STR)]),
 ]
 
 
